@@ -650,6 +650,45 @@ def extra_stage(rep, broken, exe, tier):
                 if nviol >= 5:
                     break
     rep.cov['float_longdouble_roundtrip'] = stats
+    scalar_type_stage(rep, exe)
+
+
+def scalar_type_stage(rep, exe):
+    """Accept / reject, values and stream positions of the row functions do not depend on the scalar type:
+    the corpora of the audit items (empty fields, trailing separator, every rejection cause, the calls after
+    a rejected row) with integer-valued tokens, read as double, float, long double and Eigen::Index; the
+    double instance is the one judged by the monitor in the main run."""
+    cases = []
+    for q in corpus_empty_fields() + corpus_after_error():
+        text = q[0].split()[1]
+        if '.' in unhx(text) or len(q) < 2:
+            continue
+        first = q[1].split()
+        n = -1 if first[0] == 'rowv' else int(first[1])
+        cases.append((n, first[-1], text, min(3, len(q) - 1)))
+    cases = sorted(set(cases))
+    lines = [f'rowT {ty} {n} {sp} {text} {calls}' for (n, sp, text, calls) in cases for ty in 'dfli']
+    out, rc, err = C.run_lines(exe, lines)
+    rep.cov['evaluations'] += len(out)
+    if rc != 0 or len(out) != len(lines):
+        rep.violation(f'real code crashed in the scalar-type stage (rc={rc}): {err[-200:]}',
+                      {'op': lines[len(out)] if len(out) < len(lines) else None}, True)
+        return
+    bad = 0
+    for i in range(0, len(lines), 4):
+        sigs = out[i:i + 4]
+        if any(sg.startswith('exception') or sg == 'bad-op' for sg in sigs):
+            rep.violation(f'harness: {sigs}', {'op': lines[i]}, True)
+            return
+        # the *kind* of read_error may differ (a 64-digit token is out of range for float / Index:
+        # "conversion failed", and too long for double: "number too long"); rejection itself may not
+        if len(set(re.sub(r'E_[a-z]+', 'E', sg) for sg in sigs)) != 1:
+            bad += 1
+            if bad <= 3:
+                rep.violation('monitor: the outcome of the row functions depends on the scalar type '
+                              f'(double / float / long double / Index): {sigs}', {'op': lines[i], 'impl_out': sigs},
+                              True)
+    rep.cov['scalar_type_independence'] = {'texts': len(cases), 'types': 4, 'disagreements': bad}
 
 
 if __name__ == '__main__':
@@ -668,9 +707,14 @@ if __name__ == '__main__':
             'short-circuit guards and statement skeletons of CSVReader in csv.tpp; framing literals of '
             'print.tpp) → Lean',
             'hand model Alpaqa/Model/C17.lean: control skeleton of the reader and the libstdc++ istream '
-            'semantics (sentry / peek / get / get(s,n,delim) / eofbit / failbit), tied by exact '
-            'op-sequence correspondence (values, error kind, window, bufidx, keep_reading, stream '
-            'position and flags after every op) on the explored inputs only',
+            'semantics (sentry / peek / get / get(s,n,delim) / ignore / clear / eofbit / failbit; no badbit), '
+            'tied by exact op-sequence correspondence (values, error kind, window, bufidx, keep_reading, '
+            'stream position and flags after every op) on the explored inputs only',
+            'row functions: the translator accepts exactly two statement shapes of read_row_impl / '
+            'read_row_std_vector (plain body; body wrapped in `catch (read_error &) { if (resync) '
+            'reader.discard_line(is); throw; }` with resync = !is.fail() and the exact discard_line body) and '
+            'reports which one is present (Gen rowImplResyncs / rowVecResyncs); the model runs that one; '
+            'Props/C17.lean rows_current states which one the theorems about the current code are for',
             'std::from_chars / std::to_chars are oracles: theorems assume the longest-valid-prefix '
             'contract and parse(print v) = v; exercised (not proved) by the round-trip monitor over '
             'bit patterns for double, float and long double',
@@ -678,12 +722,22 @@ if __name__ == '__main__':
             'correspondence run; no theorem depends on it',
         ],
         assumptions=['libstdc++ (GCC 12) istream semantics as read from bits/istream.tcc',
-                     'monitor treats a single trailing separator as valid (unit-tested behaviour of the '
-                     'library) and a 64-character token as accepted-or-rejected (fits the window only '
-                     'when it ends the line)'],
+                     'row grammar = the library\'s unit-tested one: a separator terminates a field, the last '
+                     'field may be terminated or not (csv.readEndWithSep, readEndWithSepEOF, stdvecReadEndWithSep, '
+                     'stdvecReadEndWithSepEOF): monitor and theorems (read_row_terminated) treat `1,2,` as the row '
+                     '(1, 2); every other empty field must be rejected',
+                     'a 64-character token is accepted-or-rejected (fits the window only when it ends the line)',
+                     'after a rejected row the monitor demands the stream at the start of the next line with '
+                     'failbit clear and judges the following call against the next line of the text'],
         rule='seeded op sequences over a real std::istringstream: (a) one long token of length 55..75 at '
              'every offset mod 64 of its line, rows before/after, comment lines of length around 0/64/128; '
              '(b) valid multi-row files with all separators, wrong n, wrong separator, trailing separator; '
+             '(b\') fixed corpora: trailing separator and empty field at the front / middle / end × every '
+             'separator × both readers × n below / at / above the field count; every rejection cause (over-long, '
+             'invalid character, too many, too few, wrong separator, empty line, empty field; lines shorter and '
+             'longer than the window; with / without a comment line; at the end of the file) followed by further '
+             'row calls without resync; half of all generated sequences run without the caller-side resync; the '
+             'corpora again for float / long double / Eigen::Index (harness-only, outcome signatures equal); '
              '(c) single-character replacement / insertion / deletion in a valid row (quick: all positions '
              '× 1 char for 6 files + random; thorough: all positions × 33 chars) followed by '
              'resync-on-error and the next rows; (d) random member-function sequences on CSVReader; '
